@@ -1150,6 +1150,16 @@ func (ge *guardEnv) ensuresUncached(h *ssa.Function, g Guard, depth int) bool {
 		if p.viaCallee != nil && depth > 0 && ge.ensures(p.viaCallee, g, depth-1) {
 			continue
 		}
+		// `return check(...)`: success of the function is success of that very check
+		if p.val != nil {
+			kind := "true"
+			if p.wantNil {
+				kind = "nil"
+			}
+			if g.Match(ge.w, h, Atom{Kind: kind, V: p.val}) {
+				continue
+			}
+		}
 		if ok, _ := ge.guardedLocal(h, p.at, g, depth); !ok {
 			return false
 		}
@@ -1185,6 +1195,8 @@ func (ge *guardEnv) guarded(f *ssa.Function, target ssa.Instruction, g Guard, li
 type successPoint struct {
 	at        ssa.Instruction
 	viaCallee *ssa.Function // the returned value is the unmodified result of this callee
+	val       ssa.Value     // the returned indicator value when it is not a constant
+	wantNil   bool
 }
 
 var errorType = types.Universe.Lookup("error").Type()
@@ -1340,10 +1352,10 @@ func classifyResult(w *World, h *ssa.Function, at ssa.Instruction, v ssa.Value, 
 			return nil
 		}
 		if cf := staticCallee(c); cf != nil && cf.Blocks != nil {
-			return []successPoint{{at: at, viaCallee: cf}}
+			return []successPoint{{at: at, viaCallee: cf, val: v, wantNil: wantNil}}
 		}
 	}
-	return []successPoint{{at: at}}
+	return []successPoint{{at: at, val: v, wantNil: wantNil}}
 }
 
 func sameValue(a, b ssa.Value) bool {
